@@ -28,6 +28,7 @@ type Obs struct {
 	Sim     bool
 	Logs    map[string][]Event // per kind; each kind is logged by one thread (or order is irrelevant)
 	Threads []ThreadEnd
+	Closed  map[string]bool // watched channels: closed at the end? (simulated runtime only)
 	Horizon bool
 }
 
